@@ -873,6 +873,55 @@ func (env *Env) evalCall(n *Call) (TV, error) {
 				}
 			}
 		}
+		// a function value called through `calls v as sig:KEY`: the types come from v's signature
+		if strings.HasPrefix(full, "sig:") && env.fx != nil {
+			if root := env.fx.rootContract(); root != nil {
+				for vname, k := range root.CallsAs {
+					if k != full {
+						continue
+					}
+					var sigT *types.Signature
+					for _, prm := range env.fx.fn.Params {
+						if prm.Name() == vname {
+							sigT, _ = prm.Type().Underlying().(*types.Signature)
+						}
+					}
+					for _, fv := range env.fx.fn.FreeVars {
+						if fv.Name() == vname {
+							if pt, ok := fv.Type().Underlying().(*types.Pointer); ok {
+								sigT, _ = pt.Elem().Underlying().(*types.Signature)
+							}
+						}
+					}
+					sc := e.P.Contracts.Funcs[full]
+					if sigT == nil || sc == nil {
+						continue
+					}
+					want := flattenName(n.Args[1])
+					var ty types.Type
+					if pfx == "arg:" {
+						for i := 0; i < sigT.Params().Len() && i < len(sc.Params); i++ {
+							if sc.Params[i] == want {
+								ty = sigT.Params().At(i).Type()
+							}
+						}
+					} else {
+						for i := 0; i < sigT.Results().Len() && i < len(sc.Returns); i++ {
+							if sc.Returns[i] == want {
+								ty = sigT.Results().At(i).Type()
+							}
+						}
+					}
+					if ty != nil {
+						e.famSort["ghost:"+gk] = e.S.sortOf(ty)
+						e.ghostTy[gk] = ty
+						t := e.declare("ghost:"+gk, e.S.sortOf(ty))
+						e.ghostEntry[gk] = t
+						return TV{t, ty}, nil
+					}
+				}
+			}
+		}
 		return TV{}, fmt.Errorf("%s: nothing recorded for %s (no call on this path?)", n.Fn, gk)
 	case "old":
 		if len(n.Args) != 1 {
